@@ -10,6 +10,7 @@ package main
 
 import (
 	"encoding/json"
+	"flag"
 	"fmt"
 	"math"
 	"math/big"
@@ -396,6 +397,25 @@ func bvhCase(d bvhDesc) (c hx.Case) {
 	}
 	impl := res(bvh)
 	lst := res(list)
+	if d.Lo != 0 {
+		// nearest admissible hit by exhaustive scan (absolute parameters)
+		best, any := 0.0, false
+		for t := 0; t < nt; t++ {
+			rec := rendering.NewHitRecord()
+			if h := leaves[t]; h != nil && h.Hit(&tr, d.Lo, math.MaxFloat64, rec) && rec.Distance <= d.Hi {
+				if !any || rec.Distance < best {
+					best, any = rec.Distance, true
+				}
+			}
+		}
+		want := "None"
+		if any {
+			want = "(Some " + dyCoq(best) + ")"
+		}
+		if impl != want || lst != want {
+			c.FailKey = "bvh:hit-max-measured-from-min"
+		}
+	}
 	c.Coq = fmt.Sprintf("CBvh [%s] [%s] [%s]\n  %s\n  %s %s %s %s %s %s", strings.Join(lb, ";"), strings.Join(tvs, ";"),
 		strings.Join(dists, ";"), sb.String(), ptCoq(v3(d.O)), dvecCoq(tr.Ray().Direction()), dyCoq(d.Lo), dyCoq(d.Hi), impl, lst)
 	c.Nontriv = nt >= 2
@@ -405,6 +425,11 @@ func bvhCase(d bvhDesc) (c hx.Case) {
 // ---------------------------------------------------------------------------------------------
 
 func main() {
+	// -bvhmin: also generate BVH rays with a non-zero lower bound.  Off by default: on the pinned code
+	// Triangle.Hit compares a parameter measured from ray.At(min) with the absolute max, so with min != 0
+	// BVHNode.Hit / HitList.Hit are no nearest-hit searches (fixes/c16-tri-hit-max-offset); the cases on
+	// which that shows carry FailKey bvh:hit-max-measured-from-min.
+	bvhMin := flag.Bool("bvhmin", false, "generate BVH rays with a non-zero lower bound")
 	run := hx.ParseFlags("C16", "Check.C16")
 	if run.Tier == "thorough" {
 		run.ShardMax = 48 // smaller shards: the big sets make a shard's coqc process heavy
@@ -453,6 +478,13 @@ func main() {
 	for _, d := range fixedBvh() {
 		run.Add(bvhCase(d))
 	}
+	if *bvhMin { // the reproducer of fixes/c16-tri-hit-max-offset under four split-axis seeds
+		for seed := int64(1); seed <= 4; seed++ {
+			run.Add(bvhCase(bvhDesc{
+				Verts: [][3]float64{{-4, -4, 5.5}, {4, -4, 5.5}, {0, 6, 5.5}, {-4, -4, 5}, {4, -4, 5}, {0, 6, 5}},
+				Idx:   []int{0, 1, 2, 3, 4, 5}, O: [3]float64{0, 0, 0}, Dir: [3]float64{0, 0, 1}, Lo: 1, Hi: 1e6, Seed: seed}))
+		}
+	}
 	r := hx.NewRng(run.Seed)
 	big := 60
 	if run.Tier == "thorough" {
@@ -461,6 +493,10 @@ func main() {
 	for i := 0; i < run.N; i++ {
 		if i%4 == 3 {
 			d := genBvh(r, run.Tier == "thorough")
+			if *bvhMin && r.Chance(1, 2) {
+				d.Lo = hx.Pick(r, []float64{0.001, 0.5, 1, 3})
+				run.Count("bvh:min!=0")
+			}
 			run.Count(fmt.Sprintf("bvh:tris<=%d", bucket(len(d.Idx)/3)))
 			run.Add(bvhCase(d))
 			continue
